@@ -165,14 +165,14 @@ func (i Int8) BitwiseXor(other Value) (Int8, Value) {
 
 func (i Int8) LeftBitshiftInt8(other Int8) Int8 {
 	if other < 0 {
-		return i >> -other
+		return i >> uint8(-other)
 	}
 	return i << other
 }
 
 func (i Int8) RightBitshiftInt8(other Int8) Int8 {
 	if other < 0 {
-		return i << -other
+		return i << uint8(-other)
 	}
 	return i >> other
 }
@@ -191,8 +191,7 @@ func (i Int8) ExponentiateInt8(other Int8) Int8 {
 		return 1
 	}
 	result := i
-	var j Int8
-	for j = 2; j <= other; j++ {
+	for j := other; j > 1; j-- {
 		result *= i
 	}
 	return result
